@@ -285,6 +285,10 @@ impl Report {
             self.samples.push(json!("(no sample recorded)"));
         }
         coverage.insert("samples".into(), json!(self.samples));
+        if crate::sched::ANY_CAPPED.load(Ordering::SeqCst) {
+            self.exhaustive = false;
+            coverage.insert("caps_hit".into(), json!("a schedule exploration hit its execution/wall cap; everything below the cap was covered"));
+        }
         coverage.insert("exhaustive".into(), json!(self.exhaustive));
         coverage.insert("bounds".into(), self.bounds.clone());
         coverage.insert(
